@@ -3,6 +3,13 @@ import json, os
 ROOT = os.path.dirname(os.path.dirname(os.path.abspath(__file__)))
 
 CHECKS = {
+    "C18": dict(
+        category="exploration",
+        text="Runtime monitor at two boundaries: the dependency listing of the real `run -M` / Python check_dependencies is compared with the files a real compilation of the same generated include graph actually opens (strace openat log), for random graphs, shadowed duplicates, embed-file kinds, dialects and search-path orders.",
+        design_ref="DESIGN.md §4 C18",
+        note="the strace log is the ground truth of what was read",
+        technique="runtime monitoring: syscall-level observation vs reported listing",
+    ),
     "C19": dict(
         category="fault_enumeration",
         text="System-call level fault and crash enumeration with strace on the real file-to-file entry points (Rust and the real Python extension): SIGKILL before every system call of the output-writing window, errno injection at every call, an audit of the trace (rename-only replacement from a completely written sibling), and concurrent writers/readers with injected delays. All crash points of the traced runs are enumerated, not sampled.",
